@@ -68,6 +68,11 @@ def run(tier, replay=None):
             n, E, tag = random_graph(r, 14)
             WE, _ = weights(r, E, r.choice(["unit", "small", "wide", "two"]))
             bases.append((n, WE))
+        # mixed magnitudes (small weights next to weights around 2^40, alternatives differing by single units): every
+        # sum, also after scaling by 2^6, stays below 2^53
+        for i in range(40 if tier == "quick" else 400):
+            n = r.randint(4, 8); E = gnp(r, n, r.uniform(.35, .7))[:14]
+            bases.append((n, [(u, v, r.randint(1, 4) if r.random() < .5 else 2 ** 40 + r.randint(0, 3)) for (u, v) in E]))
         for i in range(4 if tier == "quick" else 30):
             n, E = big_graph(r, r.choice([60, 120] if tier == "quick" else [100, 200, 350]))
             WE, _ = weights(r, E, r.choice(["unit", "small", "wide"]))
